@@ -363,7 +363,10 @@ def run(ctx):
         # binding demonstration: corrupt one byte of an accepted output before observing it
         demo = None
         for res in results:
-            if res["real"] == "link-ok" and res["case"]["ref"] in ("abs64", "pc32") and res["case"]["out"] in ("pie", "static"):
+            # a field whose link-time content is what the program reads (no dynamic relocation rewrites it)
+            cse = res["case"]
+            if res["real"] == "link-ok" and cse["sym"] in ("local_d", "global_d", "hidden_d", "protected_d") and \
+                    ((cse["ref"] == "pc32" and cse["out"] in ("pie", "static")) or (cse["ref"] == "abs64" and cse["out"] == "static")):
                 tb = rg.Toolbox(tbdir)
                 cd = Path(res["dir"])
                 outp = cd / "out"
